@@ -4,9 +4,9 @@
 package main
 
 import (
-	"math/big"
 	"bytes"
 	"fmt"
+	"math/big"
 	"strings"
 
 	"github.com/piotrnar/gocoin/lib/btc"
@@ -226,9 +226,9 @@ func wifStreams(g *vlib.Rng) {
 			checkWifDec("corpus", checkWifEnc(v, one, c))
 		}
 		base := append([]byte{v}, one...)
-		checkWifDec("corpus", mkWif(base[:32]))                          // 36-byte payload: too short
+		checkWifDec("corpus", mkWif(base[:32]))                               // 36-byte payload: too short
 		checkWifDec("corpus", mkWif(append(append([]byte{}, base...), 1, 1))) // 39: too long
-		for _, f := range []byte{0, 2, 0x80, 0xff} {                      // 38 bytes, flag byte not 01
+		for _, f := range []byte{0, 2, 0x80, 0xff} {                          // 38 bytes, flag byte not 01
 			checkWifDec("corpus-flag", mkWif(append(append([]byte{}, base...), f)))
 		}
 		bad := []byte(mkWif(append(append([]byte{}, base...), 1)))
